@@ -160,11 +160,14 @@ pub fn parameter_has_annotation(lines: &[&str], line: usize, end_char: usize) ->
     };
 
     // Get the text after the parameter name
-    let after_param = if end_char < line_text.len() {
-        &line_text[end_char..]
-    } else {
+    // `end_char` may come from an older version of the document: it can be past the end of
+    // the line or inside a multi-byte character of the current text
+    let Some(after_param) = line_text.get(end_char..) else {
         return false;
     };
+    if after_param.is_empty() {
+        return false;
+    }
 
     // Look for `:` before `,`, `)`, or `=`
     // Skip any whitespace first
